@@ -741,6 +741,12 @@ let rec rev_append l l' =
   | [] -> l'
   | a :: l0 -> rev_append l0 (a :: l')
 
+(** val concat : 'a1 list list -> 'a1 list **)
+
+let rec concat = function
+| [] -> []
+| x :: l0 -> app x (concat l0)
+
 (** val map : ('a1 -> 'a2) -> 'a1 list -> 'a2 list **)
 
 let rec map f = function
@@ -1201,6 +1207,15 @@ type 'a res =
 | Err of n
 | Panic
 | OutOfFuel
+
+(** val bind : 'a1 res -> ('a1 -> 'a2 res) -> 'a2 res **)
+
+let bind r f =
+  match r with
+  | Ok a -> f a
+  | Err e -> Err e
+  | Panic -> Panic
+  | OutOfFuel -> OutOfFuel
 
 (** val e_short : n **)
 
@@ -3395,7 +3410,7 @@ let new_tunnel_password h pw salt sec ra =
                     else if holds (gd g_NewTunnelPassword (S (S (S (S O)))))
                               (zlen ra)
                          then Err e_invalid
-                         else let chunks =
+                         else let chunks0 =
                                 Nat.div
                                   (sub
                                     (add (add (S O) (length pw)) (S (S (S (S
@@ -3404,17 +3419,17 @@ let new_tunnel_password h pw salt sec ra =
                                   (S (S (S (S (S (S (S (S (S (S (S (S
                                   O))))))))))))))))
                               in
-                              let chunks0 =
-                                if Nat.eqb chunks O then S O else chunks
+                              let chunks1 =
+                                if Nat.eqb chunks0 O then S O else chunks0
                               in
                               let attr0 =
                                 app (firstn (S (S O)) salt)
                                   (pad_to
-                                    (mul chunks0 (S (S (S (S (S (S (S (S (S
+                                    (mul chunks1 (S (S (S (S (S (S (S (S (S
                                       (S (S (S (S (S (S (S O)))))))))))))))))
                                     ((zbyte (zlen pw)) :: pw))
                               in
-                              ntp_loop h chunks0 O sec ra salt attr0)
+                              ntp_loop h chunks1 O sec ra salt attr0)
 
 (** val tp_loop :
     (bytes -> bytes) -> nat -> nat -> bytes -> bytes -> bytes -> bytes ->
@@ -3472,11 +3487,11 @@ let tunnel_password h a sec ra =
                     else (match slice a O (S (S O)) with
                           | Ok salt ->
                             let a' = skipn (S (S O)) a in
-                            let chunks =
+                            let chunks0 =
                               Nat.div (length a') (S (S (S (S (S (S (S (S (S
                                 (S (S (S (S (S (S (S O))))))))))))))))
                             in
-                            (match tp_loop h chunks O sec ra salt a' [] with
+                            (match tp_loop h chunks0 O sec ra salt a' [] with
                              | Ok plain ->
                                (match plain with
                                 | [] -> Panic
@@ -5730,6 +5745,452 @@ let spec_make_key sHA1 mD4 uTF16 ntresp pw is_send =
          (S (S (S (S (S (S (S (S (S O)))))))))))))))))))))))))
   then Err e_invalid
   else Ok (rfc_make_key sHA1 mD4 uTF16 ntresp pw is_send)
+
+(** val vSA_TYPE : z **)
+
+let vSA_TYPE =
+  Zpos (XO (XI (XO (XI XH))))
+
+(** val walk : nat -> bytes -> (n * bytes) list * bytes **)
+
+let rec walk fuel vsa =
+  match fuel with
+  | O -> ([], vsa)
+  | S f ->
+    (match vsa with
+     | [] -> ([], vsa)
+     | t :: l0 ->
+       (match l0 with
+        | [] -> ([], vsa)
+        | l :: l1 ->
+          (match l1 with
+           | [] -> ([], vsa)
+           | _ :: _ ->
+             let n0 = N.to_nat l in
+             if (||) (Nat.ltb (length vsa) n0) (Nat.ltb n0 (S (S (S O))))
+             then ([], vsa)
+             else let (subs, rest) = walk f (skipn n0 vsa) in
+                  (((t, (firstn n0 vsa)) :: subs), rest))))
+
+(** val subattrs : bytes -> (n * bytes) list * bytes **)
+
+let subattrs payload =
+  walk (length payload) payload
+
+(** val vsa_payload : n -> avp -> bytes option **)
+
+let vsa_payload vid a =
+  if negb (Z.eqb a.atype vSA_TYPE)
+  then None
+  else (match vendor_specific a.aval with
+        | Ok a0 ->
+          let (id, payload) = a0 in
+          if N.eqb id vid then Some payload else None
+        | _ -> None)
+
+(** val values_of : n -> (n * bytes) list -> bytes list **)
+
+let values_of typ subs =
+  map (fun s -> skipn (S (S O)) (snd s))
+    (filter (fun s -> N.eqb (fst s) typ) subs)
+
+(** val gets_vendor : n -> n -> attrs -> bytes list **)
+
+let gets_vendor vid typ l =
+  flat_map (fun a ->
+    match vsa_payload vid a with
+    | Some payload -> values_of typ (fst (subattrs payload))
+    | None -> []) l
+
+(** val vendor_tlv : n -> bytes -> bytes **)
+
+let vendor_tlv typ a =
+  typ :: ((zbyte (Z.add (Zpos (XO XH)) (zlen a))) :: a)
+
+(** val add_vendor : n -> n -> bytes -> attrs -> attrs res **)
+
+let add_vendor vid typ a l =
+  if Nat.eqb (length a) O
+  then Err e_invalid
+  else (match new_vendor_specific vid (vendor_tlv typ a) with
+        | Ok vsa -> Ok (add0 vSA_TYPE vsa l)
+        | Err e -> Err e
+        | Panic -> Panic
+        | OutOfFuel -> OutOfFuel)
+
+(** val strip : n -> bytes -> bool * bytes **)
+
+let strip typ payload =
+  let (subs, rest) = subattrs payload in
+  ((existsb (fun s -> N.eqb (fst s) typ) subs),
+  (app (flat_map snd (filter (fun s -> negb (N.eqb (fst s) typ)) subs)) rest))
+
+(** val del_vendor : n -> n -> attrs -> attrs **)
+
+let rec del_vendor vid typ = function
+| [] -> []
+| a :: r ->
+  (match vsa_payload vid a with
+   | Some payload ->
+     let (removed, kept) = strip typ payload in
+     if negb removed
+     then a :: (del_vendor vid typ r)
+     else (match kept with
+           | [] -> del_vendor vid typ r
+           | _ :: _ ->
+             { atype = a.atype; aval =
+               (app (firstn (S (S (S (S O)))) a.aval) kept) } :: (del_vendor
+                                                                   vid typ r))
+   | None -> a :: (del_vendor vid typ r))
+
+(** val set_vendor : n -> n -> bytes -> attrs -> attrs res **)
+
+let set_vendor vid typ a l =
+  if Nat.eqb (length a) O
+  then Err e_invalid
+  else (match new_vendor_specific vid (vendor_tlv typ a) with
+        | Ok vsa -> Ok (add0 vSA_TYPE vsa (del_vendor vid typ l))
+        | Err e -> Err e
+        | Panic -> Panic
+        | OutOfFuel -> OutOfFuel)
+
+type hkind =
+| KBytes
+| KConcat
+| KIP4
+| KIP6
+| KIFID
+| KPrefix
+| KDate
+| KInt of nat
+| KByte
+
+type hdesc = { h_type : z; h_kind : hkind; h_tag : bool; h_enc : z;
+               h_size : z option; h_vendor : n option }
+
+type gv = { g_b : bytes; g_u : z; g_mask : bytes }
+
+(** val gv_b : bytes -> gv **)
+
+let gv_b b =
+  { g_b = b; g_u = Z0; g_mask = [] }
+
+(** val gv_u : z -> gv **)
+
+let gv_u u =
+  { g_b = []; g_u = u; g_mask = [] }
+
+(** val e_noattr : n **)
+
+let e_noattr =
+  Npos (XO (XO (XO (XI (XO XH)))))
+
+(** val forced_salt : bytes -> bytes **)
+
+let forced_salt = function
+| [] -> []
+| s0 :: r -> (N.coq_lor s0 (Npos (XO (XO (XO (XO (XO (XO (XO XH))))))))) :: r
+
+(** val tp_wrap :
+    (bytes -> bytes) -> packet -> bytes -> bytes -> bytes res **)
+
+let tp_wrap hs p salt a =
+  new_tunnel_password hs a (forced_salt salt) p.secret p.auth
+
+(** val h_encode :
+    (bytes -> bytes) -> hdesc -> packet -> bytes -> n -> gv -> bytes res **)
+
+let h_encode hs d p salt tag v =
+  match d.h_kind with
+  | KBytes ->
+    let size_ok =
+      match d.h_size with
+      | Some n0 -> Z.eqb (zlen v.g_b) n0
+      | None -> true
+    in
+    if negb size_ok
+    then Err e_invalid
+    else bind
+           (if Z.eqb d.h_enc (Zpos XH)
+            then new_user_password hs v.g_b p.secret p.auth
+            else if Z.eqb d.h_enc (Zpos (XO XH))
+                 then tp_wrap hs p salt v.g_b
+                 else new_bytes v.g_b) (fun a ->
+           if (&&) d.h_tag (N.leb tag (Npos (XI (XI (XI (XI XH))))))
+           then if Nat.ltb (S (S (S (S (S (S (S (S (S (S (S (S (S (S (S (S (S
+                     (S (S (S (S (S (S (S (S (S (S (S (S (S (S (S (S (S (S (S
+                     (S (S (S (S (S (S (S (S (S (S (S (S (S (S (S (S (S (S (S
+                     (S (S (S (S (S (S (S (S (S (S (S (S (S (S (S (S (S (S (S
+                     (S (S (S (S (S (S (S (S (S (S (S (S (S (S (S (S (S (S (S
+                     (S (S (S (S (S (S (S (S (S (S (S (S (S (S (S (S (S (S (S
+                     (S (S (S (S (S (S (S (S (S (S (S (S (S (S (S (S (S (S (S
+                     (S (S (S (S (S (S (S (S (S (S (S (S (S (S (S (S (S (S (S
+                     (S (S (S (S (S (S (S (S (S (S (S (S (S (S (S (S (S (S (S
+                     (S (S (S (S (S (S (S (S (S (S (S (S (S (S (S (S (S (S (S
+                     (S (S (S (S (S (S (S (S (S (S (S (S (S (S (S (S (S (S (S
+                     (S (S (S (S (S (S (S (S (S (S (S (S (S (S (S (S (S (S (S
+                     (S (S (S (S (S (S (S (S (S (S (S (S (S (S (S (S (S (S (S
+                     (S (S (S (S (S (S (S
+                     O))))))))))))))))))))))))))))))))))))))))))))))))))))))))))))))))))))))))))))))))))))))))))))))))))))))))))))))))))))))))))))))))))))))))))))))))))))))))))))))))))))))))))))))))))))))))))))))))))))))))))))))))))))))))))))))))))))))))))))))))))))))))))))
+                     (length a)
+                then Err e_invalid
+                else Ok (tag :: a)
+           else Ok a)
+  | KConcat -> Ok v.g_b
+  | KIP4 ->
+    bind (new_ipaddr v.g_b) (fun a ->
+      if Z.eqb d.h_enc (Zpos (XO XH)) then tp_wrap hs p salt a else Ok a)
+  | KIP6 ->
+    bind (new_ipv6addr v.g_b) (fun a ->
+      if Z.eqb d.h_enc (Zpos (XO XH)) then tp_wrap hs p salt a else Ok a)
+  | KIFID -> new_ifid v.g_b
+  | KPrefix -> new_ipv6prefix v.g_b v.g_mask
+  | KDate -> new_date v.g_u
+  | KInt n0 ->
+    let a = be_enc n0 (Z.to_N v.g_u) in
+    if d.h_tag
+    then if Z.gtb v.g_u (Zpos (XI (XI (XI (XI (XI (XI (XI (XI (XI (XI (XI (XI
+              (XI (XI (XI (XI (XI (XI (XI (XI (XI (XI (XI
+              XH))))))))))))))))))))))))
+         then Err e_invalid
+         else Ok
+                ((if (&&) (N.leb (Npos XH) tag)
+                       (N.leb tag (Npos (XI (XI (XI (XI XH))))))
+                  then tag
+                  else N0) :: (skipn (S O) a))
+    else if Z.eqb d.h_enc (Zpos (XO XH)) then tp_wrap hs p salt a else Ok a
+  | KByte -> Ok ((Z.to_N v.g_u) :: [])
+
+(** val chunks : nat -> bytes -> bytes list **)
+
+let rec chunks fuel v =
+  match fuel with
+  | O -> []
+  | S f ->
+    (match v with
+     | [] -> []
+     | _ :: _ ->
+       (firstn (S (S (S (S (S (S (S (S (S (S (S (S (S (S (S (S (S (S (S (S (S
+         (S (S (S (S (S (S (S (S (S (S (S (S (S (S (S (S (S (S (S (S (S (S (S
+         (S (S (S (S (S (S (S (S (S (S (S (S (S (S (S (S (S (S (S (S (S (S (S
+         (S (S (S (S (S (S (S (S (S (S (S (S (S (S (S (S (S (S (S (S (S (S (S
+         (S (S (S (S (S (S (S (S (S (S (S (S (S (S (S (S (S (S (S (S (S (S (S
+         (S (S (S (S (S (S (S (S (S (S (S (S (S (S (S (S (S (S (S (S (S (S (S
+         (S (S (S (S (S (S (S (S (S (S (S (S (S (S (S (S (S (S (S (S (S (S (S
+         (S (S (S (S (S (S (S (S (S (S (S (S (S (S (S (S (S (S (S (S (S (S (S
+         (S (S (S (S (S (S (S (S (S (S (S (S (S (S (S (S (S (S (S (S (S (S (S
+         (S (S (S (S (S (S (S (S (S (S (S (S (S (S (S (S (S (S (S (S (S (S (S
+         (S (S (S (S (S (S (S (S (S (S (S (S (S (S (S (S (S (S (S (S (S (S (S
+         (S (S
+         O)))))))))))))))))))))))))))))))))))))))))))))))))))))))))))))))))))))))))))))))))))))))))))))))))))))))))))))))))))))))))))))))))))))))))))))))))))))))))))))))))))))))))))))))))))))))))))))))))))))))))))))))))))))))))))))))))))))))))))))))))))))))))))))
+         v) :: (chunks f
+                 (skipn (S (S (S (S (S (S (S (S (S (S (S (S (S (S (S (S (S (S
+                   (S (S (S (S (S (S (S (S (S (S (S (S (S (S (S (S (S (S (S
+                   (S (S (S (S (S (S (S (S (S (S (S (S (S (S (S (S (S (S (S
+                   (S (S (S (S (S (S (S (S (S (S (S (S (S (S (S (S (S (S (S
+                   (S (S (S (S (S (S (S (S (S (S (S (S (S (S (S (S (S (S (S
+                   (S (S (S (S (S (S (S (S (S (S (S (S (S (S (S (S (S (S (S
+                   (S (S (S (S (S (S (S (S (S (S (S (S (S (S (S (S (S (S (S
+                   (S (S (S (S (S (S (S (S (S (S (S (S (S (S (S (S (S (S (S
+                   (S (S (S (S (S (S (S (S (S (S (S (S (S (S (S (S (S (S (S
+                   (S (S (S (S (S (S (S (S (S (S (S (S (S (S (S (S (S (S (S
+                   (S (S (S (S (S (S (S (S (S (S (S (S (S (S (S (S (S (S (S
+                   (S (S (S (S (S (S (S (S (S (S (S (S (S (S (S (S (S (S (S
+                   (S (S (S (S (S (S (S (S (S (S (S (S (S (S (S (S (S (S (S
+                   (S (S (S (S (S (S (S
+                   O)))))))))))))))))))))))))))))))))))))))))))))))))))))))))))))))))))))))))))))))))))))))))))))))))))))))))))))))))))))))))))))))))))))))))))))))))))))))))))))))))))))))))))))))))))))))))))))))))))))))))))))))))))))))))))))))))))))))))))))))))))))))))))))
+                   v)))
+
+(** val h_add :
+    (bytes -> bytes) -> hdesc -> packet -> bytes -> n -> gv -> packet res **)
+
+let h_add hs d p salt tag v =
+  bind (h_encode hs d p salt tag v) (fun a ->
+    match d.h_vendor with
+    | Some vid ->
+      bind (add_vendor vid (Z.to_N d.h_type) a p.pattrs) (fun l -> Ok
+        { code = p.code; ident = p.ident; auth = p.auth; secret = p.secret;
+        pattrs = l })
+    | None ->
+      Ok { code = p.code; ident = p.ident; auth = p.auth; secret = p.secret;
+        pattrs = (add0 d.h_type a p.pattrs) })
+
+(** val h_set :
+    (bytes -> bytes) -> hdesc -> packet -> bytes -> n -> gv -> packet res **)
+
+let h_set hs d p salt tag v =
+  bind (h_encode hs d p salt tag v) (fun a ->
+    match d.h_kind with
+    | KConcat ->
+      bind (del d.h_type p.pattrs) (fun l -> Ok { code = p.code; ident =
+        p.ident; auth = p.auth; secret = p.secret; pattrs =
+        (app l
+          (map (fun c -> { atype = d.h_type; aval = c })
+            (chunks (S (length a)) a))) })
+    | _ ->
+      (match d.h_vendor with
+       | Some vid ->
+         bind (set_vendor vid (Z.to_N d.h_type) a p.pattrs) (fun l -> Ok
+           { code = p.code; ident = p.ident; auth = p.auth; secret =
+           p.secret; pattrs = l })
+       | None ->
+         bind (set d.h_type a p.pattrs) (fun l -> Ok { code = p.code; ident =
+           p.ident; auth = p.auth; secret = p.secret; pattrs = l })))
+
+(** val h_del : hdesc -> packet -> packet res **)
+
+let h_del d p =
+  match d.h_vendor with
+  | Some vid ->
+    Ok { code = p.code; ident = p.ident; auth = p.auth; secret = p.secret;
+      pattrs = (del_vendor vid (Z.to_N d.h_type) p.pattrs) }
+  | None ->
+    bind (del d.h_type p.pattrs) (fun l -> Ok { code = p.code; ident =
+      p.ident; auth = p.auth; secret = p.secret; pattrs = l })
+
+(** val h_decode :
+    (bytes -> bytes) -> hdesc -> packet -> packet -> bytes -> (n * gv) res **)
+
+let h_decode hs d p q a =
+  match d.h_kind with
+  | KIP4 ->
+    bind
+      (if Z.eqb d.h_enc (Zpos (XO XH))
+       then bind (tunnel_password hs a p.secret q.auth) (fun r -> Ok (fst r))
+       else Ok a) (fun a' -> bind (ipaddr a') (fun v -> Ok (N0, (gv_b v))))
+  | KIP6 ->
+    bind
+      (if Z.eqb d.h_enc (Zpos (XO XH))
+       then bind (tunnel_password hs a p.secret q.auth) (fun r -> Ok (fst r))
+       else Ok a) (fun a' -> bind (ipv6addr a') (fun v -> Ok (N0, (gv_b v))))
+  | KIFID -> bind (ifid a) (fun v -> Ok (N0, (gv_b v)))
+  | KPrefix ->
+    bind (ipv6prefix a) (fun r -> Ok (N0, { g_b = (fst r); g_u = Z0; g_mask =
+      (snd r) }))
+  | KDate -> bind (date a) (fun u -> Ok (N0, (gv_u u)))
+  | KInt n0 ->
+    (match a with
+     | [] ->
+       let tag = N0 in
+       bind
+         (if (&&) (negb d.h_tag) (Z.eqb d.h_enc (Zpos (XO XH)))
+          then bind (tunnel_password hs a p.secret q.auth) (fun r -> Ok
+                 (fst r))
+          else Ok a) (fun a'' ->
+         if negb (Nat.eqb (length a'') n0)
+         then Err e_invalid
+         else Ok (tag, (gv_u (Z.of_N (be_dec a'')))))
+     | t :: r ->
+       if (&&) d.h_tag (N.leb t (Npos (XI (XI (XI (XI XH))))))
+       then let a' = N0 :: r in
+            bind
+              (if (&&) (negb d.h_tag) (Z.eqb d.h_enc (Zpos (XO XH)))
+               then bind (tunnel_password hs a' p.secret q.auth) (fun r0 ->
+                      Ok (fst r0))
+               else Ok a') (fun a'' ->
+              if negb (Nat.eqb (length a'') n0)
+              then Err e_invalid
+              else Ok (t, (gv_u (Z.of_N (be_dec a'')))))
+       else let tag = N0 in
+            bind
+              (if (&&) (negb d.h_tag) (Z.eqb d.h_enc (Zpos (XO XH)))
+               then bind (tunnel_password hs a p.secret q.auth) (fun r0 -> Ok
+                      (fst r0))
+               else Ok a) (fun a'' ->
+              if negb (Nat.eqb (length a'') n0)
+              then Err e_invalid
+              else Ok (tag, (gv_u (Z.of_N (be_dec a''))))))
+  | KByte ->
+    (match a with
+     | [] -> Err e_invalid
+     | b :: l ->
+       (match l with
+        | [] -> Ok (N0, (gv_u (Z.of_N b)))
+        | _ :: _ -> Err e_invalid))
+  | _ ->
+    (match a with
+     | [] ->
+       let tag = N0 in
+       bind
+         (if Z.eqb d.h_enc (Zpos XH)
+          then user_password hs a p.secret p.auth
+          else if Z.eqb d.h_enc (Zpos (XO XH))
+               then bind (tunnel_password hs a p.secret q.auth) (fun r -> Ok
+                      (fst r))
+               else Ok a) (fun v ->
+         match d.h_size with
+         | Some n0 ->
+           if negb (Z.eqb (zlen v) n0)
+           then Err e_invalid
+           else Ok (tag, (gv_b v))
+         | None -> Ok (tag, (gv_b v)))
+     | t :: r ->
+       if (&&) d.h_tag (N.leb t (Npos (XI (XI (XI (XI XH))))))
+       then bind
+              (if Z.eqb d.h_enc (Zpos XH)
+               then user_password hs r p.secret p.auth
+               else if Z.eqb d.h_enc (Zpos (XO XH))
+                    then bind (tunnel_password hs r p.secret q.auth)
+                           (fun r0 -> Ok (fst r0))
+                    else Ok r) (fun v ->
+              match d.h_size with
+              | Some n0 ->
+                if negb (Z.eqb (zlen v) n0)
+                then Err e_invalid
+                else Ok (t, (gv_b v))
+              | None -> Ok (t, (gv_b v)))
+       else let tag = N0 in
+            bind
+              (if Z.eqb d.h_enc (Zpos XH)
+               then user_password hs a p.secret p.auth
+               else if Z.eqb d.h_enc (Zpos (XO XH))
+                    then bind (tunnel_password hs a p.secret q.auth)
+                           (fun r0 -> Ok (fst r0))
+                    else Ok a) (fun v ->
+              match d.h_size with
+              | Some n0 ->
+                if negb (Z.eqb (zlen v) n0)
+                then Err e_invalid
+                else Ok (tag, (gv_b v))
+              | None -> Ok (tag, (gv_b v))))
+
+(** val h_raw : hdesc -> packet -> bytes list **)
+
+let h_raw d p =
+  match d.h_vendor with
+  | Some vid -> gets_vendor vid (Z.to_N d.h_type) p.pattrs
+  | None ->
+    map (fun a -> a.aval) (filter (fun a -> Z.eqb a.atype d.h_type) p.pattrs)
+
+(** val h_lookup :
+    (bytes -> bytes) -> hdesc -> packet -> packet -> (n * gv) res **)
+
+let h_lookup hs d p q =
+  match d.h_kind with
+  | KConcat ->
+    (match h_raw d p with
+     | [] -> Err e_noattr
+     | b :: l0 -> Ok (N0, (gv_b (concat (b :: l0)))))
+  | _ ->
+    (match h_raw d p with
+     | [] -> Err e_noattr
+     | a :: _ -> h_decode hs d p q a)
+
+(** val decode_all :
+    (bytes -> bytes) -> hdesc -> packet -> packet -> bytes list -> (n * gv)
+    list res **)
+
+let rec decode_all hs d p q = function
+| [] -> Ok []
+| a :: r ->
+  bind (h_decode hs d p q a) (fun x ->
+    bind (decode_all hs d p q r) (fun xs -> Ok (x :: xs)))
+
+(** val h_gets :
+    (bytes -> bytes) -> hdesc -> packet -> packet -> (n * gv) list res **)
+
+let h_gets hs d p q =
+  decode_all hs d p q (h_raw d p)
 
 type key = n * n
 
@@ -16022,6 +16483,244 @@ let dispatch_mschap name bs zs =
                                                                     t_bytes)
                                                                     else None
 
+(** val kind_of : z -> z -> hkind **)
+
+let kind_of k nb =
+  if Z.eqb k Z0
+  then KBytes
+  else if Z.eqb k (Zpos XH)
+       then KConcat
+       else if Z.eqb k (Zpos (XO XH))
+            then KIP4
+            else if Z.eqb k (Zpos (XI XH))
+                 then KIP6
+                 else if Z.eqb k (Zpos (XO (XO XH)))
+                      then KIFID
+                      else if Z.eqb k (Zpos (XI (XO XH)))
+                           then KPrefix
+                           else if Z.eqb k (Zpos (XO (XI XH)))
+                                then KDate
+                                else if Z.eqb k (Zpos (XI (XI XH)))
+                                     then KInt (Z.to_nat nb)
+                                     else KByte
+
+(** val t_gv : hdesc -> gv -> tok list **)
+
+let t_gv d v =
+  match d.h_kind with
+  | KPrefix -> (TB v.g_b) :: ((TB v.g_mask) :: [])
+  | KDate -> (TI v.g_u) :: []
+  | KInt _ -> (TI v.g_u) :: []
+  | KByte -> (TI v.g_u) :: []
+  | _ -> (TB v.g_b) :: []
+
+(** val t_tv : hdesc -> (n * gv) -> tok list **)
+
+let t_tv d x =
+  (TI (Z.of_N (fst x))) :: (t_gv d (snd x))
+
+(** val run_hops :
+    hdesc -> packet -> packet -> z list -> bytes list -> tok list **)
+
+let rec run_hops d p q zs bs =
+  match zs with
+  | [] -> []
+  | o :: l ->
+    (match l with
+     | [] -> []
+     | tag :: l0 ->
+       (match l0 with
+        | [] -> []
+        | u :: zs' ->
+          (match bs with
+           | [] -> []
+           | vb :: l1 ->
+             (match l1 with
+              | [] -> []
+              | mk :: l2 ->
+                (match l2 with
+                 | [] -> []
+                 | salt :: bs' ->
+                   let v = { g_b = vb; g_u = u; g_mask = mk } in
+                   if Z.eqb o Z0
+                   then (match h_add md5 d p salt (Z.to_N tag) v with
+                         | Ok p' ->
+                           (TI
+                             Z0) :: (app (t_attrs p'.pattrs)
+                                      (run_hops d p' q zs' bs'))
+                         | Err _ ->
+                           (TI (Zpos
+                             XH)) :: (app (t_attrs p.pattrs)
+                                       (run_hops d p q zs' bs'))
+                         | _ -> (TI (Zpos (XO XH))) :: [])
+                   else if Z.eqb o (Zpos XH)
+                        then (match h_set md5 d p salt (Z.to_N tag) v with
+                              | Ok p' ->
+                                (TI
+                                  Z0) :: (app (t_attrs p'.pattrs)
+                                           (run_hops d p' q zs' bs'))
+                              | Err _ ->
+                                (TI (Zpos
+                                  XH)) :: (app (t_attrs p.pattrs)
+                                            (run_hops d p q zs' bs'))
+                              | _ -> (TI (Zpos (XO XH))) :: [])
+                        else if Z.eqb o (Zpos (XO XH))
+                             then (match h_del d p with
+                                   | Ok p' ->
+                                     (TI
+                                       Z0) :: (app (t_attrs p'.pattrs)
+                                                (run_hops d p' q zs' bs'))
+                                   | _ -> (TI (Zpos (XO XH))) :: [])
+                             else if Z.eqb o (Zpos (XI XH))
+                                  then app
+                                         (match h_lookup md5 d p q with
+                                          | Ok x -> (TI Z0) :: (t_tv d x)
+                                          | Err e ->
+                                            (TI (Zpos XH)) :: ((TI
+                                              (if N.eqb e e_noattr
+                                               then Zpos (XO (XO (XO (XI (XO
+                                                      XH)))))
+                                               else Zpos (XO (XO (XO XH))))) :: [])
+                                          | _ -> (TI (Zpos (XO XH))) :: [])
+                                         (run_hops d p q zs' bs')
+                                  else app
+                                         (match h_gets md5 d p q with
+                                          | Ok xs ->
+                                            (TI Z0) :: ((TI
+                                              (zlen xs)) :: (flat_map
+                                                              (t_tv d) xs))
+                                          | Err _ -> (TI (Zpos XH)) :: []
+                                          | _ -> (TI (Zpos (XO XH))) :: [])
+                                         (run_hops d p q zs' bs'))))))
+
+(** val dispatch_helper : bytes -> bytes list -> z list -> tok list option **)
+
+let dispatch_helper name bs zs =
+  if (||)
+       (name_is name (String ((Ascii (true, false, true, true, false, true,
+         true, false)), (String ((Ascii (false, true, true, true, false,
+         true, false, false)), (String ((Ascii (false, false, false, true,
+         false, true, true, false)), (String ((Ascii (true, false, true,
+         false, false, true, true, false)), (String ((Ascii (false, false,
+         true, true, false, true, true, false)), (String ((Ascii (false,
+         false, false, false, true, true, true, false)), (String ((Ascii
+         (true, false, true, false, false, true, true, false)), (String
+         ((Ascii (false, true, false, false, true, true, true, false)),
+         EmptyString)))))))))))))))))
+       (name_is name (String ((Ascii (true, true, false, false, true, true,
+         true, false)), (String ((Ascii (false, true, true, true, false,
+         true, false, false)), (String ((Ascii (false, false, false, true,
+         false, true, true, false)), (String ((Ascii (true, false, true,
+         false, false, true, true, false)), (String ((Ascii (false, false,
+         true, true, false, true, true, false)), (String ((Ascii (false,
+         false, false, false, true, true, true, false)), (String ((Ascii
+         (true, false, true, false, false, true, true, false)), (String
+         ((Ascii (false, true, false, false, true, true, true, false)),
+         EmptyString)))))))))))))))))
+  then (match zs with
+        | [] -> Some ((TI (Zneg (XO (XO (XI (XI (XI (XO XH)))))))) :: [])
+        | ht :: l ->
+          (match l with
+           | [] -> Some ((TI (Zneg (XO (XO (XI (XI (XI (XO XH)))))))) :: [])
+           | k :: l0 ->
+             (match l0 with
+              | [] ->
+                Some ((TI (Zneg (XO (XO (XI (XI (XI (XO XH)))))))) :: [])
+              | nb :: l1 ->
+                (match l1 with
+                 | [] ->
+                   Some ((TI (Zneg (XO (XO (XI (XI (XI (XO XH)))))))) :: [])
+                 | tg :: l2 ->
+                   (match l2 with
+                    | [] ->
+                      Some ((TI (Zneg (XO (XO (XI (XI (XI (XO
+                        XH)))))))) :: [])
+                    | enc :: l3 ->
+                      (match l3 with
+                       | [] ->
+                         Some ((TI (Zneg (XO (XO (XI (XI (XI (XO
+                           XH)))))))) :: [])
+                       | sv :: l4 ->
+                         (match l4 with
+                          | [] ->
+                            Some ((TI (Zneg (XO (XO (XI (XI (XI (XO
+                              XH)))))))) :: [])
+                          | sz :: l5 ->
+                            (match l5 with
+                             | [] ->
+                               Some ((TI (Zneg (XO (XO (XI (XI (XI (XO
+                                 XH)))))))) :: [])
+                             | vv :: l6 ->
+                               (match l6 with
+                                | [] ->
+                                  Some ((TI (Zneg (XO (XO (XI (XI (XI (XO
+                                    XH)))))))) :: [])
+                                | vid :: l7 ->
+                                  (match l7 with
+                                   | [] ->
+                                     Some ((TI (Zneg (XO (XO (XI (XI (XI (XO
+                                       XH)))))))) :: [])
+                                   | c :: l8 ->
+                                     (match l8 with
+                                      | [] ->
+                                        Some ((TI (Zneg (XO (XO (XI (XI (XI
+                                          (XO XH)))))))) :: [])
+                                      | idn :: l9 ->
+                                        (match l9 with
+                                         | [] ->
+                                           Some ((TI (Zneg (XO (XO (XI (XI
+                                             (XI (XO XH)))))))) :: [])
+                                         | n0 :: zs' ->
+                                           (match bs with
+                                            | [] ->
+                                              Some ((TI (Zneg (XO (XO (XI (XI
+                                                (XI (XO XH)))))))) :: [])
+                                            | au :: l10 ->
+                                              (match l10 with
+                                               | [] ->
+                                                 Some ((TI (Zneg (XO (XO (XI
+                                                   (XI (XI (XO
+                                                   XH)))))))) :: [])
+                                               | sec :: l11 ->
+                                                 (match l11 with
+                                                  | [] ->
+                                                    Some ((TI (Zneg (XO (XO
+                                                      (XI (XI (XI (XO
+                                                      XH)))))))) :: [])
+                                                  | qau :: bs' ->
+                                                    let d = { h_type = ht;
+                                                      h_kind =
+                                                      (kind_of k nb); h_tag =
+                                                      (Z.eqb tg (Zpos XH));
+                                                      h_enc = enc; h_size =
+                                                      (if Z.eqb sv (Zpos XH)
+                                                       then Some sz
+                                                       else None); h_vendor =
+                                                      (if Z.eqb vv (Zpos XH)
+                                                       then Some (Z.to_N vid)
+                                                       else None) }
+                                                    in
+                                                    let (l12, p) =
+                                                      take_attrs
+                                                        (Z.to_nat n0) zs' bs'
+                                                    in
+                                                    let (zs'', bs'') = p in
+                                                    let p0 = { code = c;
+                                                      ident = (Z.to_N idn);
+                                                      auth = au; secret =
+                                                      sec; pattrs = l12 }
+                                                    in
+                                                    let q = { code = (Zpos
+                                                      XH); ident =
+                                                      (Z.to_N idn); auth =
+                                                      qau; secret = sec;
+                                                      pattrs = [] }
+                                                    in
+                                                    Some
+                                                    (run_hops d p0 q zs''
+                                                      bs''))))))))))))))))
+  else None
+
 (** val dispatch : bytes -> bytes list -> z list -> tok list **)
 
 let dispatch name bs zs =
@@ -16090,5 +16789,9 @@ let dispatch name bs zs =
                                             (match dispatch_mschap name bs zs with
                                              | Some t -> t
                                              | None ->
-                                               (TI (Zneg (XI (XO (XO (XO (XO
-                                                 (XI XH)))))))) :: []))))))))))
+                                               (match dispatch_helper name bs
+                                                        zs with
+                                                | Some t -> t
+                                                | None ->
+                                                  (TI (Zneg (XI (XO (XO (XO
+                                                    (XO (XI XH)))))))) :: [])))))))))))
